@@ -12,8 +12,10 @@ JSON handler of the `PipeAgg` model (wire name `pipeagg`).
              "layout":[<template>..], "mwithin":[..]|null, "twice":false}],
  "batches":[{"a":[1,2],"b":[3,4]}, ..]}
 ```
-A value is a JSON number (scalar), `null`, an array (list), `{"np": [...]}` (numpy array, any depth) or an
-object (dict; a dict-valued column never has a key "np").
+A value is a JSON scalar (an integer; a number with a fractional part / exponent = a float; a string; `true` /
+`false`), `null` (`None`), an array (list), `{"np": [...]}` (numpy array, any depth; its dtype is the one numpy
+infers from the content) or an object (dict; a dict-valued column never has a key "np").
+`"replace"` is `null` / absent (filter mode), a JSON scalar, or `{"none": true}` (replace with `None`).
 A mask template is `"t"`, `"f"`, `"m<i>"` (nested `== key` on feature column i), `"np<i>"` (the same as a
 1-D numpy bool array) or `{"dict":[[k, template],..]}`.
 Answer: `{"err":null|kind,"result":[{"metric":..,"slice":null|{"features":..,"values":..},"value":..},..]}`.
@@ -21,10 +23,23 @@ Answer: `{"err":null|kind,"result":[{"metric":..,"slice":null|{"features":..,"va
 open Lean MlModel MlModel.PipeAgg
 namespace Driver.PipeAgg
 
+/-- strip trailing decimal zeros of a float literal (it stays a float: `1.0` is `flt 1 0`) -/
+def normFlt (m : Int) : Nat → Scalar
+  | 0 => .flt m 0
+  | e + 1 => if m % 10 = 0 then normFlt (m / 10) e else .flt m (e + 1)
+
+def parseScalar (j : Json) : Except String Scalar :=
+  match j with
+  | .num n => .ok (if n.exponent = 0 then .int n.mantissa else normFlt n.mantissa n.exponent)
+  | .str s => .ok (.str s)
+  | .bool b => .ok (.bool b)
+  | .null => .ok .none
+  | _ => .error s!"bad scalar {j.compress}"
+
 partial def parseVal (j : Json) : Except String Val :=
   match j with
   | .null => .ok .null
-  | .num _ => do let i ← j.getInt?; return .leaf i
+  | .num _ | .str _ | .bool _ => do let s ← parseScalar j; return .leaf s
   | .arr xs => do let vs ← xs.toList.mapM parseVal; return .seq false vs
   | .obj kvs =>
     match j.getObjVal? "np" with      -- {"np": [...]}: a numpy array
@@ -36,7 +51,6 @@ partial def parseVal (j : Json) : Except String Val :=
     | _ => do
       let vs ← kvs.toList.mapM fun (k, v) => do let v' ← parseVal v; return (k, v')
       return .map vs
-  | _ => .error s!"bad value {j.compress}"
 
 def parseBatch (j : Json) : Except String Batch := do
   match ← parseVal j with
@@ -119,7 +133,7 @@ partial def parseMT (j : Json) : Except String MT :=
 
 /-- `get_mask(inputs, key)`: nested `== key` -/
 partial def leafEq (key : Int) : Val → Mask
-  | .leaf v => if v = key then .tt else .ff
+  | .leaf v => if v = Scalar.int key then .tt else .ff
   | .seq _ xs => .seq (xs.map (leafEq key))
   | _ => .ff
 
@@ -134,7 +148,7 @@ def evalTop (key : Int) (cols : List Val) : MT → TopMask
   | .np c => .np ((match cols.getD c .null with
       | .seq _ xs => xs
       | _ => []).map fun (x : Val) => match x with
-      | .leaf v => v == key
+      | .leaf v => v == Scalar.int key
       | _ => false)
   | tpl => .gen (evalMask key cols tpl)
 
@@ -154,7 +168,11 @@ def maskFn (layout : List MT) (within : Option (List Int)) (twice : Bool)
 def parseSlicer (j : Json) : Except String Slicer := do
   let name ← parseStrs j "name"
   let keys ← parseStrs j "keys"
-  let replace ← Driver.getOptInt j "replace"
+  let replace ← match j.getObjVal? "replace" with
+    | .error _ => pure none
+    | .ok .null => pure none
+    | .ok (.obj _) => pure (some Scalar.none)        -- {"none": true}
+    | .ok v => do let r ← parseScalar v; pure (some r)
   let fn ← match ← Driver.getStr j "kind" with
     | "default" => pure (SliceFn.rows defaultFn)
     | "within" => do
@@ -191,9 +209,18 @@ def parseAgg (j : Json) : Except String (Agg (List Val) Stat Rv) := do
 
 def fracJson (p : Int × Nat) : Json := Json.arr #[toJson p.1, toJson p.2]
 
+/-- a (canonical) scalar: a number is the exact fraction `{"n":[num, den]}` (not reduced) -/
+def scalarJson : Scalar → Json
+  | .int i => Json.mkObj [("n", Json.arr #[toJson i, toJson (1 : Nat)])]
+  | .flt m e => Json.mkObj [("n", Json.arr #[toJson m, toJson (10 ^ e : Nat)])]
+  | .bool b => Json.mkObj [("n", Json.arr #[toJson (if b then 1 else 0 : Nat), toJson (1 : Nat)])]
+  | .str s => Json.mkObj [("s", Json.str s)]
+  | .none => Json.str "none"
+
 def rvJson : Rv → Json
   | .nums xs => Json.mkObj [("nums", Json.arr (xs.map fracJson).toArray)]
   | .hist h => Json.mkObj [("hist", Json.arr (h.map fracJson).toArray)]
+  | .bag h => Json.mkObj [("bag", Json.arr (h.map fun (k, c) => Json.arr #[scalarJson k, toJson c]).toArray)]
 
 def routJson : ROut Rv → Json
   | .one r => rvJson r
